@@ -155,6 +155,8 @@ def run(chk):
                     chk.violation("oracle", why, history=h)
             else:
                 chk.traces += 1
+        if br.coq_ok:
+            lproxy.correspondence(chk, full, traces)
         chk.samples = [{"history": [{k: (v[:40] if isinstance(v, str) else v) for k, v in e.items()} for e in hs[-1]]}]
     return chk.finish(level="proof", level_note=LEVEL_NOTE)
 
